@@ -112,9 +112,12 @@ class DCheck:
         return self.judge(prog, ref, run, info)
 
 
-def one_violation(prop: str, problems: list[tuple[str, str, str]], h: Any = None) -> list[dict[str, Any]]:
+def one_violation(prop: str, problems: list[tuple[str, str, str]], h: Any = None, ref_h: Any = None) -> list[dict[str, Any]]:
     """problems: (class, message, signature tail).  When the history shows a message of an earlier loop
-    iteration acting on a re-armed stage, that diagnosis becomes part of the signature."""
+    iteration acting on a re-armed stage, that diagnosis becomes part of the signature.  ``ref_h``: history of
+    the reference run the outcome was compared with -- the in-order run is not immune to that defect (a
+    StartTask queued just before a JumpToStage is delivered just after it), and a difference between the two
+    runs is then the reference's doing."""
     if not problems:
         return []
     cls, _, tail = problems[0]
@@ -130,6 +133,16 @@ def one_violation(prop: str, problems: list[tuple[str, str, str]], h: Any = None
             sig += f"<-stale-{x['handler']}-after-rearm"
             problems = problems + [("diagnosis", f"a {x['handler']} message queued before stage {x['stage']} was re-armed "
                                                  f"changed its {x['kind']} {x['old']}->{x['new']} afterwards", "")]
+    if ref_h is not None and not stale:
+        from sim.oracles import stale_applications
+
+        st = stale_applications(ref_h)
+        if st:
+            x = st[0]
+            stale = [f"ref:{x['handler']}:{x['kind']}:{x['old']}->{x['new']}"]
+            sig += f"<-reference-stale-{x['handler']}-after-rearm"
+            problems = problems + [("diagnosis", f"in the in-order reference run a {x['handler']} message queued before stage {x['stage']} "
+                                                 f"was re-armed changed its {x['kind']} {x['old']}->{x['new']} afterwards", "")]
     planlost: list[str] = []
     if h is not None:
         from sim.oracles import plan_lost_after_claim
